@@ -187,6 +187,10 @@ func (c *Crew) SetMachine(ctx context.Context, mid string, src *crew.SpecSource,
 		}
 
 		c.Machines[mid] = m
+
+		// A new machine is a change even if it has neither a
+		// spec nor a state yet.
+		c.change(mid)
 	}
 
 	if src != nil {
